@@ -19,7 +19,7 @@ correspondence-only: that the lifted table covers every path of the real code (t
 functions intra-procedurally), and pandas' reindexing semantics themselves (op `cont.place` vs real pandas).
 
 Helper lemmas: `Lemmas/Perm.lean`, `Lemmas/PermAggregate.lean`, `Lemmas/PermRename.lean`,
-`Lemmas/PermMoments.lean`, `Lemmas/Container.lean`, `Lemmas/C12Review.lean`; definitions: `Model/Perm.lean`,
+`Lemmas/PermMoments.lean`, `Lemmas/Container.lean`, `Lemmas/C12Review.lean`, `Lemmas/C12ReviewInj.lean`; definitions: `Model/Perm.lean`,
 `Model/Container.lean`.
 
 CLAUSE → THEOREM TABLE (review R3; clause text from properties.jsonl)
@@ -72,20 +72,21 @@ B. "Jointly permuting all rows leaves metric results unchanged"
    B5 ThresholdOptimizer                      | —                                           | CORRESPONDENCE-ONLY (to/perm);
                                                EG / GridSearch: no permutation stream (GridSearch drops the last-SEEN group)
 C. "renaming group labels by a bijection only renames the corresponding index entries"
-   C1 by_group / overall                      | rename_equivariant (`List.Perm` = same MULTISET of (renamed tuple, value)
-                                               entries, arbitrary metric), rename_lookup, rename_index_sorted +
-                                               rename_determined (LIST form: the new table is the one arrangement of those
-                                               entries whose index is sorted by the NEW labels), rename_monotone_eq
-                                               (order-preserving relabelling ⇒ literally the mapped list)       | FULL for
-                                               relabellings injective on ALL labels — PARTIAL w.r.t. "bijection of the
-                                               observed labels": the (true) extension of a bijection between finite label
-                                               sets to an injection of all strings is not formalised; the generators are:
-                                               Perm.swapLevels_injective, Perm.injective_of_involutive,
-                                               Perm.injective_of_strictMono, `Function.Injective.comp`
+   C1 by_group / overall                      | rename_equivariant_on (hypothesis `Perm.InjOnObserved σs rows`: column by
+                                               column injective on the labels that OCCUR = a bijection of the observed
+                                               labels onto their images; `List.Perm` = same MULTISET of (renamed tuple,
+                                               value) entries, arbitrary metric), rename_equivariant (+ rename_lookup;
+                                               the same for relabellings injective on ALL strings — the form the first
+                                               build had; its own examples used relabellings that are NOT of that kind),
+                                               rename_index_sorted + rename_determined (LIST form: the new table is the one
+                                               arrangement of those entries whose index is sorted by the NEW labels),
+                                               rename_monotone_eq (order-preserving relabelling ⇒ literally the mapped
+                                               list; false otherwise, see the `exSwap` example)                  | FULL
    C2 necessity                               | non_injective_rename_merges (two labels mapped to one: the groups merge,
                                                the entry count drops), rename_needs_wf (rows of the wrong width: `getD`
                                                default of `Frame.col`)                                           | FULL
-   C3 aggregates, named metrics               | frame_rename, aggregate_rename, fairness_rename                      | FULL
+   C3 aggregates, named metrics               | aggregate_rename_on, fairness_rename_on (observed-label form), frame_rename,
+                                               aggregate_rename, fairness_rename                                 | FULL
    C4 moments, ThresholdOptimizer             | —                             | CORRESPONDENCE-ONLY (mom/relabel, to/relabel)
 -/
 import FairModel.Lemmas.Perm
@@ -94,6 +95,7 @@ import FairModel.Lemmas.PermRename
 import FairModel.Lemmas.PermMoments
 import FairModel.Lemmas.Container
 import FairModel.Lemmas.C12Review
+import FairModel.Lemmas.C12ReviewInj
 
 namespace C12
 open Frame MetricPool Aggregate Perm
@@ -325,6 +327,67 @@ theorem fairness_rename (nsf : Nat) (σs : Nat → Level → Level) (hinj : ∀ 
     fun mt m => congrArg scalarOf (aggregate_rename 0 nsf (eval mt) σs hinj (fun j hj => absurd hj (by omega)) rows hwf m .coerce).2.2.2
   simp only [allFair, dpDifference, dpRatio, eoppDifference, eoppRatio, eoddsDifference, eoddsRatio, hd, hr]
 
+/-! #### (review) clause C at FULL strength: a bijection of the OBSERVED labels
+
+`rename_equivariant` and its corollaries ask for `Function.Injective (σs j)` on ALL strings.  The relabelling of a
+data set is a bijection of the labels that occur in it (a ↦ z, b ↦ c; such a map is usually NOT injective on all
+strings: it also sends z to z).  `Perm.InjOnObserved σs rows`: column by column, `σs j` is injective on the labels
+occurring in column `j` of `rows`.  That is all the theorems need (`Perm.exists_injective_agreeing`: such a family
+agrees on the observed labels with one that is injective everywhere, built from label swaps). -/
+
+theorem rename_equivariant_on (nanv : β) (ncf nsf : Nat) (f : List α → β) (σs : Nat → Level → Level)
+    (rows : List (Row α)) (hwf : WF ncf nsf rows) (hinj : InjOnObserved σs rows) :
+    (byGroup nanv ncf nsf f (rows.map (renCols σs))).Perm
+      ((byGroup nanv ncf nsf f rows).map (fun e => (mapCols σs e.1, e.2))) ∧
+    (overall nanv ncf f (rows.map (renCols σs))).Perm
+      ((overall nanv ncf f rows).map (fun e => (mapCols σs e.1, e.2))) := by
+  obtain ⟨σs', hinj', hag⟩ := exists_injective_agreeing σs rows hinj
+  have hb : (byGroup nanv ncf nsf f rows).map (fun e => (mapCols σs e.1, e.2)) =
+      (byGroup nanv ncf nsf f rows).map (fun e => (mapCols σs' e.1, e.2)) :=
+    map_entries_congr_on nanv Row.key (ncf + nsf) f rows
+      (fun r hr => by simp [Row.key, (hwf r hr).1, (hwf r hr).2]) (fun _ _ _ _ => rfl) σs σs' hag
+  have ho : (overall nanv ncf f rows).map (fun e => (mapCols σs e.1, e.2)) =
+      (overall nanv ncf f rows).map (fun e => (mapCols σs' e.1, e.2)) :=
+    map_entries_congr_on nanv Row.ckey ncf f rows (fun r hr => by simp [Row.ckey, (hwf r hr).1])
+      (fun r hr j hj => by
+        simp only [Row.ckey, Row.key, List.getD_eq_getElem?_getD]
+        rw [List.getElem?_append_left (by rw [(hwf r hr).1]; exact hj)]) σs σs' hag
+  rw [map_renCols_congr_on σs σs' rows hag, hb, ho]
+  exact rename_equivariant nanv ncf nsf f σs' hinj' rows hwf
+
+/-- `aggregate_rename` for a bijection of the observed labels that keeps the observed control labels -/
+theorem aggregate_rename_on (ncf nsf : Nat) (f : List α → Cell) (σs : Nat → Level → Level)
+    (rows : List (Row α)) (hwf : WF ncf nsf rows) (hinj : InjOnObserved σs rows)
+    (hid : ∀ j, j < ncf → ∀ r ∈ rows, σs j (r.key.getD j "") = r.key.getD j "") (m : Method) (e : Errors) :
+    groupMin e (ofFrame ncf nsf f (rows.map (renCols σs))) = groupMin e (ofFrame ncf nsf f rows) ∧
+    groupMax e (ofFrame ncf nsf f (rows.map (renCols σs))) = groupMax e (ofFrame ncf nsf f rows) ∧
+    difference m e (ofFrame ncf nsf f (rows.map (renCols σs))) = difference m e (ofFrame ncf nsf f rows) ∧
+    ratio m e (ofFrame ncf nsf f (rows.map (renCols σs))) = ratio m e (ofFrame ncf nsf f rows) := by
+  obtain ⟨σs', hinj', hag⟩ := exists_injective_agreeing σs rows hinj
+  have hinj'' : ∀ j, Function.Injective (fun s => if j < ncf then s else σs' j s) := by
+    intro j
+    by_cases h : j < ncf
+    · simp only [h, if_true]; exact Function.injective_id
+    · simp only [h, if_false]; exact hinj' j
+  have hid'' : ∀ j, j < ncf → (fun s => if j < ncf then s else σs' j s) = id := by
+    intro j h
+    funext s
+    simp [h]
+  have hag'' : ∀ j, ∀ r ∈ rows, (fun s => if j < ncf then s else σs' j s) (r.key.getD j "") = σs j (r.key.getD j "") := by
+    intro j r hr
+    by_cases h : j < ncf
+    · simp only [h, if_true]; exact (hid j h r hr).symm
+    · simp only [h, if_false]; exact hag j r hr
+  rw [map_renCols_congr_on σs (fun j s => if j < ncf then s else σs' j s) rows hag'']
+  exact aggregate_rename ncf nsf f _ hinj'' hid'' rows hwf m e
+
+/-- the six named fairness metrics under a bijection of the observed group labels -/
+theorem fairness_rename_on (nsf : Nat) (σs : Nat → Level → Level) (rows : List (Row Dat)) (hwf : WF 0 nsf rows)
+    (hinj : InjOnObserved σs rows) : allFair nsf (rows.map (renCols σs)) = allFair nsf rows := by
+  obtain ⟨σs', hinj', hag⟩ := exists_injective_agreeing σs rows hinj
+  rw [map_renCols_congr_on σs σs' rows hag]
+  exact fairness_rename nsf σs' hinj' rows hwf
+
 /-! #### (review) the ORDER of the relabelled index -/
 
 /-- the index of the relabelled table is strictly sorted — by the NEW labels -/
@@ -409,6 +472,22 @@ example : difference .between .coerce (ofFrame 1 1 (eval .selrate) (exRows.map (
 example : ¬ Function.Injective (exSigma 1) :=
   fun h => absurd (h (by decide +kernel : exSigma 1 "a" = exSigma 1 "z")) (by decide +kernel)
 
+/-- … but it IS a bijection of the observed labels, which is what `rename_equivariant_on` asks for -/
+theorem exSigma_injOnObserved : InjOnObserved exSigma exRows :=
+  InjOnObserved.of_width (ncf := 1) (nsf := 1) (by decide) (by decide +kernel)
+
+example : (byGroup Cell.nan 1 1 (eval .selrate) (exRows.map (renCols exSigma))).Perm
+    ((byGroup Cell.nan 1 1 (eval .selrate) exRows).map (fun e => (mapCols exSigma e.1, e.2))) :=
+  (rename_equivariant_on Cell.nan 1 1 (eval .selrate) exSigma exRows (by decide) exSigma_injOnObserved).1
+example : difference .between .coerce (ofFrame 1 1 (eval .selrate) (exRows.map (renCols exSigma))) =
+    difference .between .coerce (ofFrame 1 1 (eval .selrate) exRows) :=
+  (aggregate_rename_on 1 1 (eval .selrate) exSigma exRows (by decide) exSigma_injOnObserved
+    (by decide +kernel) .between .coerce).2.2.1
+/-- the merging relabelling of `non_injective_rename_merges` is (of course) not a bijection of the observed labels -/
+example : ¬ InjOnObserved (fun j s => if j = 0 then s else "z") exRows :=
+  fun h => absurd (h 1 ⟨⟨1, 1, 2, 0⟩, ["k"], ["b"]⟩ (by decide +kernel) ⟨⟨0, 1, 1, 0⟩, ["k"], ["a"]⟩ (by decide +kernel)
+    (by decide +kernel)) (by decide +kernel)
+
 /-- (review) a relabelling that IS injective on all labels: exchange a ↔ z in the sensitive column (so that the
     order of the groups a < b becomes b < z), control labels kept -/
 def exSwap : Nat → Level → Level := fun j => if j = 0 then id else swapLevels "a" "z"
@@ -488,6 +567,9 @@ example : allFair 1 exFair =
 example : allFair 1 (exFair.reverse.map (renCols exSigma')) = allFair 1 exFair := by decide +kernel
 /-- (review) `exSigma'` is again only a bijection of the observed labels; with an injective one the hypotheses of
     `fairness_rename` hold jointly (three groups, weighted rows, all 16 values finite and distinct from 0/1 mostly) -/
+example : allFair 1 (exFair.map (renCols exSigma')) = allFair 1 exFair :=
+  fairness_rename_on 1 exSigma' exFair (by decide)
+    (InjOnObserved.of_width (ncf := 0) (nsf := 1) (by decide) (by decide +kernel))
 example : allFair 1 (exFair.map (renCols (fun _ => swapLevels "a" "z"))) = allFair 1 exFair :=
   fairness_rename 1 _ (fun _ => swapLevels_injective _ _) exFair (by decide)
 
